@@ -70,6 +70,10 @@ def run(res, proof):
         want = ('ok ' + cu.show_ll(li) + ' / ' + ' '.join(str(x) for x in sorted(ext))) if connected else 'err SecondaryStructureError'
         if out != want:
             res.violation('make_loop_index:' + ('connected' if connected else 'disconnected'), {'op': ['loop', s, '0']}, out, want)
+        if len(s) <= 12:
+            for mode in (False, True):
+                cu.fresh_results(res, 'make_loop_index', lambda: cux.make_loop_index(cux.make_pair_table(s), components=mode) if (connected or mode) else None,
+                                 {'op': ['loop', s, '1' if mode else '0']})
         out1 = cu.impl_op(cux, ('loop', s, '1'))
         if not out1.startswith('ok ' + cu.show_ll(li) + ' / '):
             res.violation('make_loop_index:components-mode', {'op': ['loop', s, '1']}, out1, 'ok ' + cu.show_ll(li) + ' / …')
@@ -107,6 +111,36 @@ def run(res, proof):
                 res.violation('is_domainlevel_complement', {'op': ['ComplexS.is_domainlevel_complement', ' '.join(names), s]},
                               repr(c.is_domainlevel_complement), repr(dlc))
             res.count('dlc_%s' % dlc)
+            # a disconnected complex has no exterior / enclosed domains: the views raise, every time they are asked
+            from dsdobjects import SecondaryStructureError as _SSE
+            def raises_sse(attr):
+                try:
+                    getattr(c, attr)
+                except _SSE:
+                    return True
+                except Exception:
+                    return False
+                return False
+            if not connected:
+                for attr in ('exterior_domains', 'enclosed_domains', 'exterior_domains'):
+                    if not raises_sse(attr):
+                        res.violation('disconnected:' + attr, {'op': ['ComplexS.' + attr, ' '.join(names), s]}, 'no SecondaryStructureError', 'SecondaryStructureError')
+            # the same answers after the complex was split (split computes its own decomposition of the same tables)
+            parts = list(c.split())
+            ncomp = len(parts)
+            del parts
+            if ncomp != len(comps):
+                res.violation('split():number-of-parts', {'op': ['ComplexS.split', ' '.join(names), s]}, str(ncomp), str(len(comps)))
+            if c.is_connected != connected:
+                res.violation('is_connected:after-split', {'op': ['ComplexS.is_connected after split', ' '.join(names), s]}, repr(c.is_connected), repr(connected))
+            if connected:
+                if list(c.exterior_domains) != exd or list(c.enclosed_domains) != end:
+                    res.violation('exterior_domains:after-split', {'op': ['ComplexS.exterior_domains after split', ' '.join(names), s]},
+                                  repr((c.exterior_domains, c.enclosed_domains)), repr((exd, end)))
+            elif not (raises_sse('exterior_domains') and raises_sse('enclosed_domains')):
+                res.violation('disconnected:views-after-split', {'op': ['ComplexS.exterior_domains after split', ' '.join(names), s]},
+                              'no SecondaryStructureError', 'SecondaryStructureError')
+            res.count('views_after_split')
             # the same views after the object was rotated (tables populated before the rotation), enclosed read first
             nstr = len(strands)
             if connected and nstr > 1:
